@@ -1605,6 +1605,11 @@ impl Visit for TypeDeclCollector {
 }
 
 fn inject_define_component_option(call: &mut CallExpr, name: &'static str, value: Expr) {
+    // the options are the second argument: without a first one there's no place for them
+    if call.args.is_empty() {
+        return;
+    }
+
     let options = call.args.get_mut(1);
     if options
         .as_ref()
